@@ -365,7 +365,7 @@ func run(c Case) (v vkit.Verdict) {
 				pts = append(pts, tp{cx, cy, want})
 			}
 		})
-		if bad > tol {
+		if !(bad <= tol) { // NaN-safe
 			return v.Fail("%s.%s(%s): region where the result disagrees with the point-set definition has area %.6g (expected result area %.6g, result area %.6g, tol %.3g); "+
 				"largest piece around (%v, %v); result=%v", c.A.T, opNames[op], c.B.T, bad, expected, areaR[op], tol, wx, wy, pr)
 		}
@@ -383,13 +383,13 @@ func run(c Case) (v vkit.Verdict) {
 		}
 	}
 	// (3) inclusion-exclusion with true areas
-	if d := areaR[0] + areaR[1] - areaA - areaB; math.Abs(d) > 4*tol {
+	if d := areaR[0] + areaR[1] - areaA - areaB; vkit.Off(d, 4*tol) {
 		return v.Fail("area(A∩B)+area(A∪B)-area(A)-area(B) = %g", d)
 	}
-	if d := areaR[2] - (areaA - areaR[0]); math.Abs(d) > 4*tol {
+	if d := areaR[2] - (areaA - areaR[0]); vkit.Off(d, 4*tol) {
 		return v.Fail("area(A-B)-(area(A)-area(A∩B)) = %g", d)
 	}
-	if d := areaR[3] - (areaR[1] - areaR[0]); math.Abs(d) > 4*tol {
+	if d := areaR[3] - (areaR[1] - areaR[0]); vkit.Off(d, 4*tol) {
 		return v.Fail("area(A xor B)-(area(A∪B)-area(A∩B)) = %g", d)
 	}
 	return v
@@ -399,8 +399,8 @@ func TestProp(t *testing.T) {
 	_ = fmt.Sprint
 	vkit.Main(t, vkit.Spec[Case]{
 		ID: "C01",
-		Rule: "rapid: operand pairs with kinds drawn from {Polygon, MultiPolygon, *Bounds}^2; polygons valid by construction (star-shaped shell of 3-12 vertices, " +
-			"0-3 star-shaped holes in disjoint sectors of the inscribed disc, multi-polygons of 1-3 members in disjoint cells, every ring independently reversed/" +
+		Rule: "rapid: operand pairs with kinds drawn from {Polygon, MultiPolygon, *Bounds}^2; polygons valid by construction (two families: 2/3 star-shaped shell of 3-12 vertices with " +
+			"0-3 star-shaped holes in disjoint sectors of the inscribed disc; 1/3 non-star 'comb/snake' bands of 6-18 vertices between two chains over common knots, rotated or with vertically aligned knots, holes in the cells' inscribed discs; multi-polygons of 1-3 members in disjoint cells, every ring independently reversed/" +
 			"rotated/closed-or-unclosed); B placed by a drawn configuration (overlap, nested, in a hole, diagonal, bounding-box disjoint, far); continuous " +
 			"coordinates and a variant snapped to 2^-10; cases with a vertex of one operand within 1e-7*scale of an edge of the other are skipped (counted). All four " +
 			"operations are run per case; oracle = slab (trapezoid) integration of the area where the result's even-odd membership differs from op(inA,inB), " +
